@@ -25,4 +25,51 @@ PROPS = {
         "assumptions": COMMON_ASSUME,
         "outside": "longer histories, more than 3 keys, slotsPerBucket=31 (scaled to 2), level>3, other FileSystems (C17), real MurmurHash (C18)",
     },
+    "C18": {
+        "quick": [
+            {"harness": "H_C18_rec", "cases": list(range(32))},
+            {"harness": "H_C18_hdr"}, {"harness": "H_C18_bucket"}, {"harness": "H_C18_names"},
+            {"harness": "H_C18_hash", "cases": list(range(0, 13))},
+        ],
+        "thorough": [
+            {"harness": "H_C18_rec", "cases": list(range(32))},
+            {"harness": "H_C18_hdr"}, {"harness": "H_C18_bucket"}, {"harness": "H_C18_names"},
+            {"harness": "H_C18_hash", "cases": list(range(0, 17))},
+        ],
+        "covers": {"quick": ["C18.rec.done", "C18.hdr.done", "C18.bucket.done", "C18.names.done", "C18.hash.done"]},
+        "bounds": {"quick": "records: key 0..3 x value 0..3 bytes x {put,delete}, symbolic contents; bucket: all 31 slots and next fully symbolic; header; MurmurHash3 on 0..12 symbolic bytes and symbolic seed",
+                   "thorough": "as quick, MurmurHash3 on 0..16 bytes"},
+        "assumptions": COMMON_ASSUME,
+        "outside": "gob wire format of the .pmt side files (token model), longer records (framing is length-parametric), golden directories produced by running the pinned binary",
+    },
+    "C08": {
+        "quick": [
+            {"harness": "H_C08_iter_s", "cases": list(range(12))},
+            {"harness": "H_C08_iter_q", "cases": list(range(0, 22))},
+            {"harness": "H_C08_iter_big", "cases": list(range(0, 22))},
+        ],
+        "thorough": [
+            {"harness": "H_C08_iter_s", "cases": list(range(12))},
+            {"harness": "H_C08_iter_q", "cases": list(range(0, 38))},
+            {"harness": "H_C08_iter_big", "cases": list(range(0, 38))},
+        ],
+        "covers": {"quick": ["C08.iter.done", "C08.iter.tail-discarded", "C08.iter.record-from-tail-accepted"]},
+        "bounds": {"quick": "segment = header + p in {0,1} valid records + T fully symbolic tail bytes, T = 0..16; claimed record size <= 64 (exact framing) and > 64 up to 2^31+65545 (symbolic-length allocation)",
+                   "thorough": "T = 0..24"},
+        "assumptions": COMMON_ASSUME,
+        "outside": "tails longer than the bound, more than 1 valid record before the tail, positions relative to the 4096-byte bufio buffer, assembly CRC = generic CRC",
+    },
+    "C19": {
+        "quick": [
+            {"harness": "H_C19_alloc", "cases": list(range(0, 8))},
+        ],
+        "thorough": [
+            {"harness": "H_C19_alloc", "cases": list(range(0, 16))},
+        ],
+        "covers": {"quick": ["C19.done"]},
+        "bounds": {"quick": "header + p in {0,1} valid records + fully symbolic tail of 6..15 bytes; every make/append executed during recoveryIterator.next is an obligation size <= 2*(bytes present)+64KiB, size being a symbolic expression of the 6 header bytes (all 2^48 headers at once)",
+                   "thorough": "tails up to 27 bytes"},
+        "assumptions": COMMON_ASSUME + ["allocation accounting: bytes requested by make/append/new in executed SSA (Go runtime internals not modelled)"],
+        "outside": "wall-clock and RSS of the real process (measured only in the native replay of a counterexample)",
+    },
 }
